@@ -762,6 +762,9 @@ def run_catalogue(ctx, worker, tier=None, models=None):
     models first. Returns the aggregate."""
     from vf.models import catalog
     names = models or [m.name for m in catalog.catalogue(tier or ctx.tier)]
+    if os.environ.get('VF_MODELS'):      # debugging aid: restrict to some models (the run is then marked non-exhaustive)
+        names = [n for n in names if n in os.environ['VF_MODELS'].split(',')]
+        ctx.cap('VF_MODELS restricts the catalogue to %s' % names)
     items = [(n, ctx.tier, ctx.seed, f) for n in names for f in ('populated', 'empty')]
     items.sort(key=lambda it: (it[3] != 'populated', -len(it[0])))
     results = ctx.pmap(worker, items)
@@ -812,7 +815,18 @@ def shrink(hist, fails):
                     break
     return hist
 
+def has_self_link(hist):
+    """the history links an object to ITSELF (legal but exotic for symmetric / self-referencing
+    relationships); findings that need it are named 'self-link' whatever the surrounding operations"""
+    for op in hist:
+        if op[0] in ('add', 'remove') and op[1] == op[3]: return True
+        if op[0] == 'assign' and op[1] in op[3]: return True
+        if op[0] == 'set' and isinstance(op[3], (tuple, list)) and len(op[3]) == 2 and op[3][0] == 'ref' and op[3][1] == op[1]: return True
+        if op[0] == 'setm' and any(isinstance(v, (tuple, list)) and len(v) == 2 and v[0] == 'ref' and v[1] == op[1] for k, v in op[2]): return True
+    return False
+
 def kinds(hist, norm_end=True):
+    if has_self_link(hist): return 'self-link'
     ks = [op[0] for op in hist]
     if norm_end: ks = ['commit' if k == 'end' else k for k in ks]
     return '>'.join(ks)
